@@ -1,12 +1,18 @@
 //! C05 harnesses (overlay module `crate::consensus::votor::kani_c05`, child of `votor`).
 //!
-//! Bounded event histories on a fresh `Votor` (the real `Votor::new`): K events whose KIND is
-//! symbolic among a per-family menu of concrete events (block arrives, timeouts, ParentReady,
-//! SafeToNotar, SafeToSkip, CertCreated, Standstill ...) are delivered through the real async
-//! handlers (`handle_blockstore_event`, `handle_timeout_event`, `handle_pool_event`), polled
-//! once.  Every vote the node broadcasts is recorded by a mock `All2All`; after every event
-//! the new votes are checked, in emission order, against a reference monitor written from the
-//! property statement (not from votor's flags).
+//! Bounded event histories on a fresh node (the real `Votor::new`): an optional concrete prefix,
+//! then K events whose KIND the solver chooses from the family's menu of concrete events (block
+//! arrives, first shred, invalid block, timeouts, ParentReady, SafeToNotar, SafeToSkip,
+//! CertCreated for every certificate type) are delivered through the real handlers
+//! (`handle_blockstore_event`, `handle_timeout_event`, `handle_pool_event`).  Every vote the
+//! node broadcasts is recorded; after every event the new votes are checked, in emission order,
+//! against a reference monitor (`Mon`) written from the property statement - it knows only what
+//! the node was shown and what it has cast so far, never votor's flags.
+//!
+//! How the async code is encoded under Kani (union-encoded state machines are what CBMC cannot
+//! digest) is explained next to the redirections in spec.py.  Natively (replay of a
+//! counterexample) nothing is redirected: real tokio channels and runtime context, real BLS
+//! keys, the recording `All2All` below.
 #![allow(dead_code, unused_imports, unused_variables, clippy::all, static_mut_refs)]
 
 use std::future::Future;
@@ -109,15 +115,11 @@ const OWN: usize = 1; // the node's validator index (of 2)
 const KEY_ID: u8 = 0xC5;
 
 #[cfg(kani)]
-fn own_key(_fx: &Fix) -> SecretKey {
+fn opaque_key(id: u8) -> SecretKey {
     let mut b = [0u8; 32];
-    b[0] = KEY_ID;
+    b[0] = id;
     // SAFETY: blst SecretKey is a plain 32-byte scalar; never used by real crypto under Kani
     unsafe { std::mem::transmute::<[u8; 32], SecretKey>(b) }
-}
-#[cfg(not(kani))]
-fn own_key(fx: &Fix) -> SecretKey {
-    fx.sks[OWN].clone()
 }
 #[cfg(kani)]
 pub(crate) fn sign_id_stub<T: crate::crypto::Signable>(sk: &SecretKey, _msg: &T) -> crate::crypto::IndividualSignature {
@@ -278,8 +280,12 @@ macro_rules! run {
 type V = Votor<RecA2A>;
 
 struct World {
-    fx: Fix,
     votor: V,
+    /// signer of the certificates the environment shows to the node
+    #[cfg(kani)]
+    cert_key: SecretKey,
+    #[cfg(not(kani))]
+    fx: Fix,
     /// native replay: `set_timeouts` calls the real `tokio::spawn`, which needs a runtime context;
     /// the (leaked, never driven) current-thread runtime stays entered for the whole test
     #[cfg(not(kani))]
@@ -296,19 +302,19 @@ fn fresh() -> World {
         G.timers = 0;
         G.overflow = false;
     }
-    let fx = fixture(&[1, 1], OWN);
-    let key = own_key(&fx);
     #[cfg(kani)]
     {
         let (_ptx, prx) = standin::channel::<PoolEvent>(1);
         let (_btx, brx) = standin::channel::<BlockstoreEvent>(1);
-        let votor = Votor::new(ValidatorIndex::new(OWN as u64), key, prx, brx, Arc::new(RecA2A {}));
-        World { fx, votor }
+        let votor = Votor::new(ValidatorIndex::new(OWN as u64), opaque_key(KEY_ID), prx, brx, Arc::new(RecA2A {}));
+        World { votor, cert_key: opaque_key(0) }
     }
     #[cfg(not(kani))]
     {
-        // real tokio channels; timers are spawned on a runtime that is never driven (the harness
-        // injects the timeouts itself)
+        // real keys, real tokio channels; the timers are spawned on a runtime that is never driven
+        // (the harness injects the timeouts itself)
+        let fx = fixture(&[1, 1], OWN);
+        let key = fx.sks[OWN].clone();
         let rt: &'static tokio::runtime::Runtime = Box::leak(Box::new(tokio::runtime::Builder::new_current_thread().enable_all().build().unwrap()));
         let guard = rt.enter();
         let (ptx, prx) = tokio::sync::mpsc::channel(16);
@@ -316,7 +322,7 @@ fn fresh() -> World {
         let _ = OWN_PK.set(key.to_pk());
         let a2a = Arc::new(RecA2A { own_pk: key.to_pk() });
         let votor = Votor::new(ValidatorIndex::new(OWN as u64), key, prx, brx, a2a);
-        World { fx, votor, guard, keep: (ptx, btx) }
+        World { votor, fx, guard, keep: (ptx, btx) }
     }
 }
 
@@ -513,8 +519,17 @@ impl Mon {
 // ---------------------------------------------------------------------------------------------
 // delivering one event through the real handler
 // ---------------------------------------------------------------------------------------------
+/// kind: 0 notar, 1 notar-fallback, 2 skip, 3 fast-final, 4 final.  Under Kani an opaque object
+/// of that type for (slot, block); natively a real certificate signed by validator 0.
 fn mk_cert(w: &World, kind: u8, s: u8, t: u8) -> Cert {
-    opaque(kind, slot(s), block_hash(t), w.fx.epoch.epoch_info().validators(), &w.fx.sks[0])
+    #[cfg(kani)]
+    {
+        opaque(kind, slot(s), block_hash(t), &[], &w.cert_key)
+    }
+    #[cfg(not(kani))]
+    {
+        opaque(kind, slot(s), block_hash(t), w.fx.epoch.epoch_info().validators(), &w.fx.sks[0])
+    }
 }
 
 fn deliver(w: &mut World, e: E) {
@@ -530,26 +545,34 @@ fn deliver(w: &mut World, e: E) {
         PREADY => run!(w.votor.handle_pool_event(PoolEvent::ParentReady { slot: slot(e.s), parent: (slot(e.ps), block_hash(e.pt)) })),
         S2N => run!(w.votor.handle_pool_event(PoolEvent::SafeToNotar((slot(e.s), block_hash(e.t))))),
         S2S => run!(w.votor.handle_pool_event(PoolEvent::SafeToSkip(slot(e.s)))),
-        CNOTAR => {
-            let c = mk_cert(w, 0, e.s, e.t);
-            run!(w.votor.handle_pool_event(PoolEvent::CertCreated(c)))
+        CNOTAR => deliver_cert(w, 0, e.s, e.t),
+        CNFALL => deliver_cert(w, 1, e.s, e.t),
+        CSKIP => deliver_cert(w, 2, e.s, e.t),
+        CFAST => deliver_cert(w, 3, e.s, e.t),
+        _ => deliver_cert(w, 4, e.s, e.t),
+    }
+}
+
+/// `PoolEvent::CertCreated`.  Natively through `handle_pool_event`.  Under Kani the two things
+/// `handle_pool_event` does with it are called one after the other - the real
+/// `should_ignore_pool_event`, then the real `handle_cert_created`: `PoolEvent` keeps its
+/// discriminant in a niche of the embedded `Cert`, CBMC does not see a constant there and would
+/// execute every arm of `handle_pool_event` (3 M steps, measured).
+fn deliver_cert(w: &mut World, kind: u8, s: u8, t: u8) {
+    #[cfg(kani)]
+    {
+        let ev = PoolEvent::CertCreated(mk_cert(w, kind, s, t));
+        let ignored = w.votor.should_ignore_pool_event(&ev);
+        std::mem::forget(ev);
+        if !ignored {
+            let c = mk_cert(w, kind, s, t);
+            run!(w.votor.handle_cert_created(c));
         }
-        CNFALL => {
-            let c = mk_cert(w, 1, e.s, e.t);
-            run!(w.votor.handle_pool_event(PoolEvent::CertCreated(c)))
-        }
-        CSKIP => {
-            let c = mk_cert(w, 2, e.s, e.t);
-            run!(w.votor.handle_pool_event(PoolEvent::CertCreated(c)))
-        }
-        CFAST => {
-            let c = mk_cert(w, 3, e.s, e.t);
-            run!(w.votor.handle_pool_event(PoolEvent::CertCreated(c)))
-        }
-        _ => {
-            let c = mk_cert(w, 4, e.s, e.t);
-            run!(w.votor.handle_pool_event(PoolEvent::CertCreated(c)))
-        }
+    }
+    #[cfg(not(kani))]
+    {
+        let c = mk_cert(w, kind, s, t);
+        run!(w.votor.handle_pool_event(PoolEvent::CertCreated(c)));
     }
 }
 
@@ -571,9 +594,9 @@ fn step(w: &mut World, m: &mut Mon, e: E) {
     }
 }
 
-/// K events, each chosen by the solver among the family's menu.
+/// A concrete prefix, then K events each chosen by the solver among the family's menu.
 macro_rules! history {
-    ($name:ident, $k:literal, [$($e:expr),+ $(,)?], |$m:ident| $covers:block) => {
+    ($name:ident, prefix [$($p:expr),* $(,)?], $k:literal of [$($e:expr),+ $(,)?], |$m:ident| $covers:block) => {
         #[cfg_attr(kani, kani::proof)]
         #[cfg_attr(kani, kani::stub(crate::crypto::aggsig::SecretKey::sign, sign_id_stub))]
         #[cfg_attr(kani, kani::stub(log::max_level, log_off))]
@@ -583,6 +606,7 @@ macro_rules! history {
             const MENU: &[E] = &[$($e),+];
             let mut w = fresh();
             let mut mon = Mon::new();
+            $( step(&mut w, &mut mon, $p); )*
             let mut i = 0;
             while i < $k {
                 let sel = vs::any_below(MENU.len() as u8) as usize;
@@ -603,30 +627,81 @@ macro_rules! history {
     };
 }
 
-// window 0 (slots 1..3, genesis parent): blocks A1 = 1, B1 = 2 in slot 1; A2 = 3 (child of A1) in slot 2
-history!(c05_h_probe, 2, [blk(1, 1, 0, 0), blk(2, 3, 1, 1), ev(TIMEOUT, 2), evb(CNOTAR, 1, 1)], |m| {
-    vcover!(m.n_notar >= 2, "two notar votes are cast");
-    vcover!(m.n_skip >= 1, "a skip vote is cast");
-    vcover!(m.n_final >= 1, "a final vote is cast");
-});
+// ---------------------------------------------------------------------------------------------
+// families.  Window 0 (slots 1..3, parent of slot 1 = genesis): blocks A1 = 1, B1 = 2 in slot 1,
+// A2 = 3 (child of A1), B2 = 4 (child of B1) in slot 2, A3 = 5 (child of A2) in slot 3.
+// Window 1 (slots 4..7): candidate parents P = 6, Q = 7 in slot 3; blocks A4 = 1 (child of P),
+// B4 = 2 (child of Q) in slot 4, A5 = 3 (child of A4) in slot 5, A6 = 4 (child of A5) in slot 6.
+// ---------------------------------------------------------------------------------------------
+const A1: E = blk(1, 1, 0, 0);
+const B1: E = blk(1, 2, 0, 0);
+const A2: E = blk(2, 3, 1, 1);
+const B2: E = blk(2, 4, 1, 2);
+const A3: E = blk(3, 5, 2, 3);
+const A4: E = blk(4, 1, 3, 6);
+const B4: E = blk(4, 2, 3, 7);
+const A5: E = blk(5, 3, 4, 1);
+const A6: E = blk(6, 4, 5, 3);
+const RDY_P: E = pready(4, 3, 6);
+const RDY_Q: E = pready(4, 3, 7);
 
-#[cfg_attr(kani, kani::proof)]
-#[cfg_attr(kani, kani::stub(crate::crypto::aggsig::SecretKey::sign, sign_id_stub))]
-#[cfg_attr(kani, kani::stub(log::max_level, log_off))]
-#[cfg_attr(kani, kani::unwind(6))]
-#[cfg_attr(verif_replay, test)]
-fn c05_px_fresh() {
-    let w = fresh();
-    vcheck!(unsafe { G.timers } == 1 || cfg!(not(kani)), "timer armed");
-    std::mem::forget(w);
-}
-history!(c05_h_p1, 2, [blk(1, 1, 0, 0), blk(2, 3, 1, 1), ev(TIMEOUT, 2)], |m| {
+// blocks arriving in any order, two competing chains
+history!(c05_g_blocks_k2, prefix [], 2 of [A1, B1, A2, B2, A3], |m| {
     vcover!(m.n_notar >= 2, "two notar votes are cast");
+    vcover!(m.n_quiet >= 1, "a block is not voted for");
+});
+history!(c05_g_blocks_k3, prefix [], 3 of [A1, B1, A2, B2, A3], |m| {
+    vcover!(m.n_notar >= 3, "three notar votes are cast");
+    vcover!(m.n_quiet >= 2, "two blocks are not voted for");
+});
+// blocks against timeouts and invalid blocks
+history!(c05_g_timeouts_k2, prefix [], 2 of [A1, A2, ev(TIMEOUT, 1), ev(TIMEOUT, 3), ev(INVALID, 2), ev(FIRST, 1)], |m| {
+    vcover!(m.n_notar >= 1 && m.n_skip >= 1, "a notar vote and a skip vote are cast");
+    vcover!(m.n_skip >= 3, "the whole window is skipped");
+});
+history!(c05_g_timeouts_k3, prefix [], 3 of [A1, A2, ev(TIMEOUT, 1), ev(TIMEOUT, 3), ev(INVALID, 2)], |m| {
+    vcover!(m.n_notar >= 2 && m.n_skip >= 1, "two notar votes and a skip vote are cast");
+    vcover!(m.n_quiet >= 1, "an event casts no vote");
+});
+// finalization against fallback votes, slot 1 notarized in the prefix
+history!(c05_g_final_k2, prefix [A1], 2 of [evb(CNOTAR, 1, 1), evb(CNOTAR, 1, 2), evb(S2N, 1, 2), ev(S2S, 1), A2, ev(TIMEOUT, 2)], |m| {
+    vcover!(m.n_final >= 1, "a final vote is cast");
+    vcover!(m.n_nf >= 1, "a notar-fallback vote is cast");
+    vcover!(m.n_sf >= 1, "a skip-fallback vote is cast");
+    vcover!(m.n_nf + m.n_sf >= 1 && m.n_final == 0 && m.cert[1] & 2 != 0, "no final vote after a fallback vote although the certificate is there");
+});
+history!(c05_g_final_k3, prefix [A1], 3 of [evb(CNOTAR, 1, 1), evb(CNOTAR, 1, 2), evb(S2N, 1, 2), ev(S2S, 1), A2, evb(CNOTAR, 2, 3)], |m| {
+    vcover!(m.n_final >= 2, "two final votes are cast");
+    vcover!(m.n_nf >= 1 && m.n_sf >= 1, "both fallback votes are cast");
+});
+// after the final vote: the slot is retired
+history!(c05_g_retired_k2, prefix [A1, evb(CNOTAR, 1, 1)], 2 of [evb(S2N, 1, 2), ev(S2S, 1), ev(TIMEOUT, 1), ev(INVALID, 1), B1, evb(CNOTAR, 1, 1), ev(CFINAL, 1)], |m| {
+    vcover!(m.n_final >= 1, "a final vote is cast");
+    vcover!(m.n_skip >= 1, "the rest of the window is skipped");
+    vcover!(m.n_quiet >= 2, "two events cast no vote");
+});
+// skipped slot: fallback votes, late blocks and certificates
+history!(c05_g_skipped_k2, prefix [ev(TIMEOUT, 1)], 2 of [A1, evb(S2N, 1, 1), evb(S2N, 1, 2), evb(CNOTAR, 1, 1), evb(CNFALL, 1, 1), ev(CSKIP, 1)], |m| {
+    vcover!(m.n_nf >= 2, "two notar-fallback votes are cast");
+    vcover!(m.n_ignored == 0 && m.n_quiet >= 1, "a certificate is re-broadcast without a vote");
+});
+// window 1: parents announced ready, two candidate parents
+history!(c05_w_parent_k2, prefix [], 2 of [RDY_P, RDY_Q, A4, B4, A5, ev(CRASHED, 4)], |m| {
+    vcover!(m.n_notar >= 1, "a notar vote is cast");
+    vcover!(m.n_skip >= 4, "the window is skipped");
+    vcover!(m.n_quiet >= 1, "an event casts no vote");
+});
+history!(c05_w_parent_k3, prefix [], 3 of [RDY_P, RDY_Q, A4, B4, A5, ev(TIMEOUT, 5)], |m| {
+    vcover!(m.n_notar >= 2, "two notar votes are cast in one step (pending block)");
+    vcover!(m.n_notar >= 1 && m.n_skip >= 1, "a notar vote and a skip vote are cast");
+});
+history!(c05_w_crashed_k2, prefix [RDY_P], 2 of [ev(FIRST, 4), ev(CRASHED, 4), A4, ev(TIMEOUT, 4), ev(TIMEOUT, 6)], |m| {
+    vcover!(m.n_notar >= 1 && m.n_skip >= 3, "a notar vote, then the rest of the window is skipped");
+    vcover!(m.n_quiet >= 1, "an event casts no vote");
+});
+// window 1 with finalization certificates: pruning and events for old slots
+history!(c05_w_prune_k2, prefix [RDY_P, A4], 2 of [ev(CFINAL, 5), evb(CFAST, 4, 1), evb(CNOTAR, 4, 1), A5, ev(TIMEOUT, 5), ev(TIMEOUT, 6), evb(S2N, 4, 2)], |m| {
+    vcover!(m.n_final >= 1, "a final vote is cast");
     vcover!(m.n_skip >= 1, "a skip vote is cast");
-});
-history!(c05_h_p2, 1, [evb(CNOTAR, 1, 1)], |m| {
-    vcover!(m.n_quiet >= 1, "quiet");
-});
-history!(c05_h_p3, 1, [evb(S2N, 1, 1), ev(TIMEOUT, 1)], |m| {
-    vcover!(m.n_quiet == 0, "not quiet");
+    vcover!(m.n_quiet >= 1, "an event casts no vote");
 });
